@@ -18,7 +18,7 @@ Fixpoint all2 {A B} (f : A -> B -> bool) (a : list A) (b : list B) : bool :=
 Definition err_eqb (a b : err) : bool :=
   match a, b with
   | ErrModProp x, ErrModProp y | ErrNeedsDt x, ErrNeedsDt y | ErrNeedsCfg x, ErrNeedsCfg y
-  | ErrMandatory x, ErrMandatory y | ErrCheck x, ErrCheck y => str_eqb x y
+  | ErrMandatory x, ErrMandatory y | ErrCheck x, ErrCheck y | ErrDupExport x, ErrDupExport y => str_eqb x y
   | ErrNoProp x p, ErrNoProp y q | ErrBadValue x p, ErrBadValue y q => str_eqb x y && str_eqb p q
   | ErrUnknown l, ErrUnknown m => strl_eqb l m
   | _, _ => false
